@@ -162,3 +162,40 @@ def scf_roundtrip(chk, repo: Repo, rule_prefix: str = "scf") -> None:
     missing = sorted({f"b{i}" for i in range(8)} - used)
     chk.ob(f"{rule_prefix}-reader-uses-all-bits", fk.site(), not missing, f"SecurityControlField.from_knx reads bits {sorted(used)}; dropped: {missing} (a dropped bit is not covered by the MAC, which is computed over to_knx())", key=f"{rule_prefix}|reader-bits")
     chk.ob(f"{rule_prefix}-roundtrip-identity", tk.site(), ok, f"to_knx(from_knx(octet)) = {outs[0] if outs else None!r}; required: the same 8 bits at the same positions", key=f"{rule_prefix}|roundtrip")
+
+
+def block0_octet_is_the_wire_octet(chk, repo: Repo) -> None:
+    """Block 0 authenticates the TPCI/APCI octet pair of the secured frame as it is on the wire: the first octet is the
+    transport PDU's own octet (what TPCI.to_knx() returns, already in position) with the two high APCI bits of
+    A_SecureData in its low bits.  A shifted copy agrees with the wire only for the all-zero TPCI (T_Data_Group /
+    Broadcast / Individual): a tag-group frame of a conforming sender would never verify, and a numbered PDU does not
+    fit an octet.  Decided by evaluating the octet expression for every data TPCI octet (abstract machine, constants
+    folded - nothing runs) against `tpci | (A_SecureData code >> 8)`."""
+    from ..absmachine import AbsMachine, UNKNOWN
+    from ..exctable import ExcTable
+    from ..loader import NOFOLD
+    M = "xknx.secure.data_secure_asdu"
+    b0 = repo.func(M, "block_0")
+    chk.unit(b0)
+    rets = [n for n in walk_local(b0.node) if isinstance(n, ast.Return) and n.value is not None]
+    elts = [e for r in rets for t in ast.walk(r.value) if isinstance(t, ast.Tuple) for e in t.elts if any(isinstance(x, ast.Name) and x.id == "tpci_int" for x in ast.walk(e))]
+    if len(elts) != 1:
+        raise AnalysisError("block_0: the octet built from tpci_int not found")
+    sec = repo.cls("xknx.telegram.apci", "SecureAPDU")
+    code = repo.const(sec, "CODE")
+    codev = code.value if isinstance(code, EnumMember) else None
+    if not isinstance(codev, int):
+        raise AnalysisError("SecureAPDU.CODE does not fold")
+    high = (codev >> 8) & 0x03
+
+    def hook(e, env):
+        v = repo.fold(e, b0.module, None) if isinstance(e, (ast.Name, ast.Attribute)) else NOFOLD
+        return v if isinstance(v, int) and not isinstance(v, bool) else UNKNOWN
+    am = AbsMachine(CFG(b0.node), ExcTable(repo), None, hook)
+    bad = []
+    octets = [0x00, 0x04] + [0x40 | (k << 2) for k in range(16)]
+    for t in octets:
+        got = am.ev(elts[0], {"tpci_int": t}, {})
+        if got != (t | high):
+            bad.append(f"{t:#04x} -> {got if not isinstance(got, int) else hex(got)} (wire {t | high:#04x})")
+    chk.ob("block0-authenticates-the-wire-octet", b0.site(elts[0]), not bad, f"block_0 octet `{ast.unparse(elts[0])}` over {len(octets)} data TPCI octets: " + ("equals TPCI octet | A_SecureData high bits for each" if not bad else "differs from the octet on the wire for " + "; ".join(bad[:4])), key="b0|wire-octet")
